@@ -262,6 +262,16 @@ func RunFamily(f *Family, tier string) int {
 		confirmed += bad
 		vlines = append(vlines, lines...)
 	}
+	layoutPrograms, layoutBad := 0, 0
+	if f.LayoutBuilds {
+		n, bad, lines, err := layoutBuilds(f, sc, seed)
+		if err != nil {
+			return infra(f.Prop, err)
+		}
+		layoutPrograms, layoutBad = n, bad
+		confirmed += bad
+		vlines = append(vlines, lines...)
+	}
 	if len(viols) > 0 && f.Judge == "yaml" {
 		// three results per document; programs are singletons already, nothing to re-pack
 		for _, v := range viols {
@@ -402,6 +412,11 @@ func RunFamily(f *Family, tier string) int {
 		ev.Coverage["mixed_programs"] = mixedPrograms
 		ev.Coverage["mixed_programs_not_compiling"] = mixedBad
 		ev.Coverage["mixed_rule"] = "programs that combine 6 seed-chosen units of different families (each of which compiles on its own) as sibling properties, with their definitions side by side: imports, helper identifiers and type names of different features must not clash"
+	}
+	if f.LayoutBuilds {
+		ev.Coverage["multi_output_runs"] = layoutPrograms
+		ev.Coverage["multi_output_runs_not_compiling"] = layoutBad
+		ev.Coverage["multi_output_rule"] = "the multi-file layouts of spec/MC_C20.tla (4 reference graphs x mappings default / own / samebase / sharedsame / onepkg, all four files as arguments): every run that succeeds must emit packages that build together; a failure is excused only by the layout's nobuild prediction (open deviation SameBaseImportClash) or a package cycle no generator could avoid"
 	}
 	if apa := <-apaDone; len(apa) > 0 {
 		ev.Coverage["apalache"] = apa
@@ -668,6 +683,85 @@ func ReplayTierSeed(path string) (string, string) {
 		}
 	}
 	return tier, seed
+}
+
+// layoutBuilds runs the multi-output layouts of the C20 family (files a, b, c, z with cross references; per-schema
+// packages and output files) through the generator and builds what every run emits: C01 quantifies over runs with
+// several outputs too (imports of sibling packages, no import of the file's own package).
+func layoutBuilds(f *Family, sc *work.Scratch, seed int64) (int, int, []string, error) {
+	type lay struct{ graph, mapping string }
+	var jobs []work.GenJob
+	meta := map[string]lay{}
+	n := 0
+	for _, g := range []string{"none", "chain", "diamond", "cycle"} {
+		for _, m := range []string{"default", "own", "samebase", "sharedsame", "onepkg"} {
+			id := fmt.Sprintf("y%04d", n)
+			n++
+			meta[id] = lay{g, m}
+			var entries []string
+			for _, a := range []string{"a", "b", "c", "z"} {
+				entries = append(entries, layoutPath(a, "flat"))
+			}
+			jobs = append(jobs, work.GenJob{ID: id, Dir: filepath.Join(sc.Dir, "in", id), Files: layoutFilesFor(g, "flat", m), Entries: entries,
+				OutDir: filepath.Join(sc.Mod, "gen", id), Cfg: layoutCfg(m, "vscratch/gen/"+id)})
+		}
+	}
+	gres, err := sc.Generate(jobs)
+	if err != nil {
+		return 0, 0, nil, err
+	}
+	var ok []string
+	for _, j := range jobs {
+		if r := gres[j.ID]; r != nil && r.OK {
+			ok = append(ok, j.ID)
+		} else {
+			_ = os.RemoveAll(filepath.Join(sc.Mod, "gen", j.ID))
+		}
+	}
+	badJobs, err := sc.BuildJobs(ok)
+	if err != nil {
+		return 0, 0, nil, err
+	}
+	fnd, _ := LoadFindings()
+	clashOpen := false
+	if fnd != nil {
+		for _, d := range fnd.OpenDevs() {
+			clashOpen = clashOpen || d == "SameBaseImportClash"
+		}
+	}
+	bad := 0
+	var lines []string
+	ids := make([]string, 0, len(badJobs))
+	for id := range badJobs {
+		ids = append(ids, id)
+	}
+	sort.Strings(ids)
+	for _, id := range ids {
+		l := meta[id]
+		// what MC_C20 predicts not to build: packages that import each other (no generator can avoid it), and the
+		// open deviation SameBaseImportClash (two imports under one alias)
+		if l.graph == "cycle" && (l.mapping == "own" || l.mapping == "samebase") {
+			continue
+		}
+		if clashOpen && l.mapping == "samebase" && l.graph == "diamond" {
+			continue
+		}
+		bad++
+		if len(lines) < 5 {
+			rp := map[string]any{"property": f.Prop, "kind": "multi-output-run", "graph": l.graph, "mapping": l.mapping,
+				"files": layoutFilesFor(l.graph, "flat", l.mapping), "options": layoutCfg(l.mapping, "MODULE"),
+				"expected": "the emitted packages build together", "observed": firstLine(badJobs[id]),
+				"how_to_rerun": "bin/vcheck replay " + f.Prop + " <this file>"}
+			dir := filepath.Join(Home(), "replay", f.Prop)
+			_ = os.MkdirAll(dir, 0o755)
+			p := filepath.Join(dir, fmt.Sprintf("seed%d-layout-%s-%s.json", seed, l.graph, l.mapping))
+			b, _ := json.MarshalIndent(rp, "", " ")
+			if err := os.WriteFile(p, append(b, '\n'), 0o644); err == nil {
+				lines = append(lines, fmt.Sprintf("VIOLATION property=%s replay=%s", f.Prop, p))
+			}
+		}
+	}
+	return len(ok), bad, lines, nil
 }
 
 // mixedPacks builds programs that combine units of different families (all compiling on their own, same options,
